@@ -291,7 +291,7 @@ class Paths:
         ret = None
         for e in events:
             if e[0] == "write":
-                lv0 = subst(e[1], lambda n: n[1] if n[0] == "update" else None)   # the place, not its history
+                lv0 = subst(e[1], lambda n: n[1] if n[0] in ("update", "mut") else None)   # the place, not its history
                 for st in states:
                     st.effects.append(("write", self._val(st, lv0), self._val(st, e[2])))
             elif e[0] == "cond":
@@ -313,6 +313,8 @@ class Paths:
     def _val(self, st, t):
         env = st.env
         t = subst(t, lambda n: env.get(n) if env else None)
+        if env and any(isinstance(k, tuple) and k and k[0] == "unit" for k in env):
+            t = _unit_calls(t, env)
         return _simplify(self.canon.tree(_norm_calls(t)))
 
     # conditions -----------------------------------------------------------------------------------------
@@ -412,7 +414,7 @@ class Paths:
             if ext and name not in PURE_MUT:
                 st.effects.append(("call", self._val(st, node)))
                 if isinstance(rty, dict) and rty.get("tuple") == []:
-                    st.env[key] = UNIT  # the unit result of an effectful call is not a value worth tracking
+                    st.env[("unit", key)] = True  # the unit result of an effectful call is not a value worth tracking
             return [st]
         out = []
         for facts, effects, val in cases:
@@ -880,6 +882,26 @@ def _slice_patterns(facts, effects, ret):
     return nf, ne, subst(ret, r) if ret is not None else None
 
 
+def _unit_calls(t, env):
+    """the () returned by an effectful call is UNIT wherever it is used as a value — but the call stays where it
+    marks a mutation (`mut` nodes: the value of a place after the call)"""
+    if not isinstance(t, tuple) or not t or not isinstance(t[0], str):
+        return t
+    if t[0] == "call" and env.get(("unit", t)):
+        return UNIT
+    if t[0] == "mut":
+        return (t[0], _unit_calls(t[1], env), t[2]) + tuple(t[3:])
+    out = [t[0]]
+    for x in t[1:]:
+        if isinstance(x, tuple) and x and isinstance(x[0], str):
+            out.append(_unit_calls(x, env))
+        elif isinstance(x, tuple):
+            out.append(tuple(_unit_calls(y, env) if isinstance(y, tuple) else y for y in x))
+        else:
+            out.append(x)
+    return tuple(out)
+
+
 def _refine(ret, facts):
     """a returned Option/Result value whose variant the path has established is written as that variant:
     `let v = load(); if v.is_some() {…}; v` returns Some(payload v) on the path where v is Some"""
@@ -1041,9 +1063,9 @@ def _norm_calls(t):
             if len(n) == 5 and p.split("::")[-1] in PURE_MUT:
                 n = n[:4]
                 return n
-            if len(n) == 5 and n[3] and any(x[0] == "update" for x in walk(n[3][0])):
+            if len(n) == 5 and n[3] and any(x[0] in ("update", "mut") for x in walk(n[3][0])):
                 # a call on `&mut object`: the receiver is the object, not the history of its fields
-                a0 = subst(n[3][0], lambda m: m[1] if m[0] == "update" else None)
+                a0 = subst(n[3][0], lambda m: m[1] if m[0] in ("update", "mut") else None)
                 return n[:3] + ((a0,) + tuple(n[3][1:]),) + n[4:]
             op = _prim_op(p)
             if op is not None:
